@@ -100,6 +100,12 @@ def shard_main(args):
     from harness.build import HarnessError
     _quiet_logging()
     sys.setrecursionlimit(20000)
+    try:
+        import resource
+        lim = int(os.environ.get("VERIF_SHARD_MEM_GB", "4")) * (1 << 30)
+        resource.setrlimit(resource.RLIMIT_AS, (lim, lim))
+    except Exception:  # noqa
+        pass
     out = {"shard": shard, "violations": [], "error": None, "parts": []}
     t0 = time.time()
     try:
